@@ -323,6 +323,13 @@ class LinearPolynomial(BaseDeferred):
         new_constant_term = self.constant_term
 
         for key, value in self.coeffs.items():
+            if key.is_awaiting:
+                # The polynomial is part of the computation of this very value
+                # (e.g. the link base). Other variables may still expand to
+                # terms that cancel it; if they don't, waiting for it in the sum
+                # below detects the cycle.
+                new_coeffs.append((key, value))
+                continue
             ready = False
             with try_compute:
                 key = key.wait()
@@ -344,7 +351,9 @@ class LinearPolynomial(BaseDeferred):
             else:
                 new_constant_term += key * value
 
-        new_value = LinearPolynomial[int](new_coeffs, new_constant_term)
+        # The values substituted above may still name variables whose own value
+        # is known by now (e.g. the link base promise, see normalized())
+        new_value = LinearPolynomial[int](new_coeffs, new_constant_term).normalized()
         self.coeffs = new_value.coeffs
         self.constant_term = new_value.constant_term
 
